@@ -32,6 +32,15 @@ def run(prop, tier):
             # the update model and vhdlFile.update disagree: a correspondence break; the property
             # failures found in the same sweep (if any) are the concrete inputs
             res.proof_break("correspondence update-model vs vhdlFile.update at %s" % fl["site"], {"detail": fl["detail"], "input": fl.get("input")})
+    if prop == "C03":
+        # layer B families with their own synthetic + harvested correspondence (evidence under coverage["layer_b_*"])
+        for modname in ("props_bind", "props_bws"):
+            try:
+                mod = __import__(modname)
+            except ImportError:
+                continue
+            if hasattr(mod, "extra"):
+                mod.extra(res, tier)
     for he in agg.get("harness_errors", [])[:3]:
         res.notes.append("harness error: %r" % (he,))
     nontrivial = sum(1 for _ in agg["fired"]) if False else None
